@@ -200,6 +200,10 @@ def _build_calls():
     pw = []
     for a in (-1, 0.5, 2):
         pw += [(f"{a},{lab}", f) for lab, f in with_alg((lambda a: lambda cola, A, n, *alg: L(cola).pow(A, a, *alg) @ np.ones(n))(a), un_algs)]
+    # exponents that are NumPy scalars (elements of arrays, results of NumPy arithmetic) are numbers too
+    for a in (np.float32(0.5), np.int64(2), np.int32(-1), np.float64(2.5)):
+        pw += [(f"{type(a).__name__}({a}),{lab}", f)
+               for lab, f in with_alg((lambda a: lambda cola, A, n, *alg: L(cola).pow(A, a, *alg) @ np.ones(n))(a), ["omitted", "Auto", "Eig"])]
     reg("pow", pw)
     reg("apply_unary", with_alg(lambda cola, A, n, *alg: L(cola).apply_unary(np.sin, A, *alg) @ np.ones(n), un_algs))
     eig_algs = ["omitted", "Auto", "Auto(kw)", "Eig", "Eigh", "Lanczos", "Arnoldi", "PowerIteration", "LOBPCG"]
